@@ -1,3 +1,4 @@
 import PPModel.Base.Sexp
 import PPModel.Mod.LineCol
 import PPModel.Driver.LineCol
+import PPModel.Mod.Threads
